@@ -162,6 +162,7 @@ type World struct {
 	PayloadBin   bool
 	PCMode       int
 	payloadSeq   int
+	emptyUsed    bool
 	F            struct{ drop, dup, partition, crash, stall, clockjump, adderr bool }
 	Ptrs         []ptrRec
 	lastByz      *byzBatch
@@ -393,6 +394,12 @@ func (w *World) payload() []byte {
 	w.payloadSeq++
 	p := []byte(fmt.Sprintf("p%d", w.payloadSeq))
 	if w.PayloadBin {
+		// an empty payload is a legal payload; at most one per world, so no two entries can coincide
+		if !w.emptyUsed && w.R.Choose("pl-empty", 8) == 0 {
+			w.emptyUsed = true
+			w.R.Probe("empty-payload")
+			return []byte{}
+		}
 		n := 1 + w.R.Choose("pl-len", 6)
 		for i := 0; i < n; i++ {
 			p = append(p, byte(w.R.Choose("pl-byte", 256)))
